@@ -8,7 +8,7 @@
 From Coq Require Import List NArith ZArith Bool Ascii String.
 From Qryn Require Import model.GoFloat model.JsonStream proofs.JsonStreamProofs proofs.JsonSpliceProofs
   proofs.GoFloatProofs proofs.JsonNumProofs proofs.JsonSeriesProofs proofs.GoMarshalProofs proofs.GoFloatReadProofs proofs.GoFloatRoundProofs
-  proofs.GoFloatExactProofs proofs.GoFloatShortestProofs proofs.GoFloatMsProofs model.RespOptimizer proofs.RespOptimizerProofs model.JsonPyro proofs.JsonPyroProofs.
+  proofs.GoFloatExactProofs proofs.GoFloatShortestProofs proofs.GoFloatMsProofs model.RespOptimizer proofs.RespOptimizerProofs model.JsonPyro proofs.JsonPyroProofs proofs.TraceqlDurationProofs model.TracePb proofs.TracePbProofs.
 Import ListNotations.
 Open Scope string_scope.
 Open Scope list_scope.
@@ -605,6 +605,70 @@ Theorem one_object_per_stream_optimized_refuted : exists bs, forall os,
 Proof. eexists. exact optimize_splits_streams_at_3000. Qed.
 Print Assumptions one_object_per_stream_optimized_refuted.
 
+(* channel batches never show: the body is a function of the row sequence alone - two ways of cutting the same rows into batches
+   (any boundaries, empty batches, io.EOF markers anywhere) give the same bytes; with doc_wellformed_* and doc_content_rows:
+   every row once and one object per run of equal fingerprints, for every batching *)
+Theorem streams_batching_invisible : forall bs bs',
+  forallb (forallb no_fail) bs = true -> forallb (forallb no_fail) bs' = true ->
+  rows_streams bs = rows_streams bs' -> enc_streams cur_hdr bs = enc_streams cur_hdr bs'.
+Proof. exact RespOptimizerProofs.streams_batching_invisible. Qed.
+Print Assumptions streams_batching_invisible.
+Theorem tail_batching_invisible : forall bs bs',
+  forallb (forallb no_fail) bs = true -> forallb (forallb no_fail) bs' = true ->
+  rows_streams bs = rows_streams bs' -> enc_tail cur_hdr bs = enc_tail cur_hdr bs'.
+Proof. exact RespOptimizerProofs.tail_batching_invisible. Qed.
+Print Assumptions tail_batching_invisible.
+Theorem matrix_batching_invisible : forall bs bs',
+  forallb (forallb no_fail) bs = true -> forallb (forallb no_fail) bs' = true ->
+  rows_matrix bs = rows_matrix bs' -> enc_matrix bs = enc_matrix bs'.
+Proof. exact RespOptimizerProofs.matrix_batching_invisible. Qed.
+Print Assumptions matrix_batching_invisible.
+
+(* ------------------------------------------------------------------------------------------ *)
+(* the default: branch of unmarshal.SpanToJSONSpan (array / key-value list attribute values, an AnyValue without oneof):
+   the attribute text, json.Marshal of the oneof wrapper, is itself ONE JSON document, the field walk [oval_json v] of the
+   value, whenever no NaN / infinity sits anywhere inside ... *)
+Theorem nested_attribute_text_is_json : forall v, oval_default v = true -> oval_finite v = true ->
+  parse_bytes (oval_text v) = Some (sanitize_doc (oval_json v)).
+Proof. exact nested_value_text_bytes. Qed.
+Print Assumptions nested_attribute_text_is_json.
+(* ... and the empty text otherwise (json.Marshal fails, SpanToJSONSpan drops the error) *)
+Theorem nested_attribute_text_nonfinite_empty : forall v, oval_default v = true -> oval_finite v = false ->
+  oval_text v = EmptyString.
+Proof. exact nested_value_text_nonfinite. Qed.
+Print Assumptions nested_attribute_text_nonfinite_empty.
+Example nested_attribute_met : oval_default nested_example = true /\ oval_finite nested_example = true /\
+  parse_bytes (oval_text nested_example) = Some (sanitize_doc (oval_json nested_example)).
+Proof. exact nested_example_met. Qed.
+Example nested_attribute_nan : oval_default (OArr [OInt 1; OKv [("a", Some (ODouble 9221120237041090560))]]) = true /\
+  oval_finite (OArr [OInt 1; OKv [("a", Some (ODouble 9221120237041090560))]]) = false /\
+  oval_text (OArr [OInt 1; OKv [("a", Some (ODouble 9221120237041090560))]]) = EmptyString.
+Proof. vm_compute. repeat split. Qed.
+(* the whole Trace body with such attributes: doc_wellformed_trace_otlp above, unchanged statement, now over the larger [oval] *)
+Example span_with_nested_attribute :
+  let o := {| o_trace := "t"; o_span := "s"; o_parent := ""; o_name := "n"; o_start := 1%Z; o_end := 2%Z;
+              o_attrs := [("k", nested_example); ("u", OUnset); ("bad", OArr [ODouble 9218868437227405312])];
+              o_events := []; o_status := None |} in
+  parse_bytes (render (enc_trace [jspan_val (span_to_jspan o)])) = Some (doc_trace_of [sanitize_doc (jspan_val (span_to_jspan o))]) /\
+  map sa_val (js_attrs (span_to_jspan o)) = [oval_text nested_example; "null"; ""].
+Proof. vm_compute. split; reflexivity. Qed.
+
+(* ------------------------------------------------------------------------------------------ *)
+(* Search by TraceQL drops the error of json.Marshal(trace); the only value that can make it fail is a NaN / infinite
+   durationMs. That value is the ClickHouse column toFloat64(<Int64 expression>) / 1000000 (text compared with the source on
+   every run): an Int64 converted to Float64 and divided by a non-zero constant is finite, for every Int64 - the guard of
+   doc_wellformed_search_traceql is met by everything the stored data can produce, the `[,]` body is unreachable *)
+Theorem traceql_duration_always_finite : forall z c, fl_finite (fl_div_int (fl_of_int z) c) = true.
+Proof. exact int_quotient_finite. Qed.
+Print Assumptions traceql_duration_always_finite.
+
+Theorem doc_wellformed_search_traceql_stored : forall ts, (forall t, In t ts -> duration_from_store (ti_dur t)) ->
+  parse_bytes (render (enc_search (map trace_info_val ts))) = Some (doc_search_of (map sanitize_doc (map trace_info_val ts))).
+Proof. exact search_traceql_stored_bytes. Qed.
+Print Assumptions doc_wellformed_search_traceql_stored.
+Example traceql_stored_guard_met : duration_from_store 4609434218613702656.   (* 1500000 ns: 1.5 ms *)
+Proof. exact duration_from_store_met. Qed.
+
 (* ------------------------------------------------------------------------------------------ *)
 (* Pyroscope JSON bodies (reader/controller/profController.go). writeResponse for a JSON client is protojson.Marshal of the
    response message: [pyro_body sp v] are its bytes for the message v (a tree of fields in declaration order: lowerCamel names,
@@ -686,3 +750,44 @@ Print Assumptions doc_wellformed_pyro_error_body.
 Theorem pyro_error_body_before_repair_refuted : exists msg, ascii_only msg = true /\ parse_bytes (go_quote_ascii msg) = None.
 Proof. exact go_quote_not_json. Qed.
 Print Assumptions pyro_error_body_before_repair_refuted.
+
+(* ------------------------------------------------------------------------------------------ *)
+(* Trace, protobuf branch (Accept: application/protobuf): the handler keeps a map service name -> ResourceSpans, appends every
+   span of the channel to the entry of its service and marshals the map's values in map order. [group_by_service order spans]:
+   the visiting order (any) and the channel content (service name bytes, span identity). For EVERY order and channel content:
+   exactly one group per service name, a group exactly for the names present, the spans of a service in channel order, every
+   span once, no empty group; the oracle the check runs on the decoded real body is sound, and accepts the model's document *)
+Theorem trace_pb_one_group_per_service : forall order spans, NoDup (map fst (group_by_service order spans)).
+Proof. exact groups_one_per_service. Qed.
+Print Assumptions trace_pb_one_group_per_service.
+Theorem trace_pb_group_iff_service : forall order spans s,
+  In s (map fst (group_by_service order spans)) <-> In s (map fst spans).
+Proof. exact groups_cover_services. Qed.
+Print Assumptions trace_pb_group_iff_service.
+Theorem trace_pb_spans_in_channel_order : forall order spans s,
+  tp_get (group_by_service order spans) s = map snd (filter (fun p => String.eqb (fst p) s) spans).
+Proof. exact groups_spans_in_order. Qed.
+Print Assumptions trace_pb_spans_in_channel_order.
+Theorem trace_pb_every_span_once : forall order spans,
+  Permutation.Permutation (List.concat (map (fun g => map (fun x => (fst g, x)) (snd g)) (group_by_service order spans))) spans.
+Proof. exact groups_every_span_once. Qed.
+Print Assumptions trace_pb_every_span_once.
+Theorem trace_pb_no_empty_group : forall order spans s l, In (s, l) (group_by_service order spans) -> l <> [].
+Proof. exact groups_never_empty. Qed.
+Print Assumptions trace_pb_no_empty_group.
+Theorem trace_pb_oracle_sound : forall c, pb_violation c = false ->
+  tp_status c = 200%Z /\ tp_valid c = true /\
+  NoDup (map o_attr (tp_obs c)) /\
+  (forall s, In s (map o_attr (tp_obs c)) <-> In s (map fst (tp_spans c))) /\
+  (forall o, In o (tp_obs c) ->
+     o_ids o = tp_ids_of (o_attr o) (tp_spans c) /\ o_ids o <> [] /\
+     o_key o = tp_key_service_name /\ o_strval o = true /\ o_nattrs o = 1%N /\
+     o_sname o = tp_scope_name /\ o_sver o = tp_scope_version /\ o_nscopes o = 1%N /\ o_extra o = 0%N) /\
+  Permutation.Permutation (tp_flat (map obs_group (tp_obs c))) (tp_spans c).
+Proof. exact pb_oracle_sound. Qed.
+Print Assumptions trace_pb_oracle_sound.
+Theorem trace_pb_model_passes_oracle : forall id order spans,
+  pb_violation {| tp_id := id; tp_spans := spans; tp_badspan := false; tp_status := 200; tp_valid := true;
+                  tp_obs := pb_doc order spans |} = false.
+Proof. exact pb_doc_passes_oracle. Qed.
+Print Assumptions trace_pb_model_passes_oracle.
